@@ -281,7 +281,7 @@ Error FormatterInternal::format_feature(String& sb, uint32_t feature_id) noexcep
 
 ASMJIT_FAVOR_SIZE Error FormatterInternal::format_cond_code(String& sb, CondCode cc) noexcept {
   static const char cond_code_string_data[] =
-    "al\0" "na\0"
+    "al\0" "nv\0"
     "eq\0" "ne\0"
     "hs\0" "lo\0" "mi\0" "pl\0" "vs\0" "vc\0"
     "hi\0" "ls\0" "ge\0" "lt\0" "gt\0" "le\0"
